@@ -40,6 +40,13 @@ inductive Outcome where
   | err (code : Nat)
   deriving DecidableEq, Repr, Inhabited
 
+/-- decidable equality of results (core has none for `Except`); used by the `decide`d examples -/
+instance instDecEqExcept {α : Type} [DecidableEq α] : DecidableEq (Except Fault α)
+  | .ok a, .ok b => if h : a = b then isTrue (by rw [h]) else isFalse (fun e => h (by injection e))
+  | .error a, .error b => if h : a = b then isTrue (by rw [h]) else isFalse (fun e => h (by injection e))
+  | .ok _, .error _ => isFalse (fun e => by cases e)
+  | .error _, .ok _ => isFalse (fun e => by cases e)
+
 abbrev Buf := List Nat
 
 /-- one-byte load -/
